@@ -20,10 +20,13 @@
 '''
 import env  # noqa: F401  (first: sys.path for stubs and the repo under test)
 import glob
+import collections
+import datetime as dtmod
 import ipaddress
 import itertools
 import json
 import os
+import socket
 import sys
 import time
 from io import BytesIO
@@ -257,6 +260,293 @@ def real_recv(arrival, plain=True):
 
 
 # ----------------------------------------------------------------------------------------------
+# the whole send path: send_bundle_data -> _tx_queue -> conversation queue (TxSendWait, paced by a token
+# bucket on a 10 ms tick) -> socket, under the virtual GLib clock, with non-transfer messages on the
+# same conversation (polling, its reply, ECN feedback, PMTUD probes / confirm)
+
+PEER_ADDR = ('10.0.0.9', 4556)
+
+
+class FakeSock(object):
+    ''' stands for socket.socket: records what is sent, hands out what the script injects '''
+    made = []
+
+    def __init__(self, family=socket.AF_INET, type=socket.SOCK_DGRAM, proto=0, fileno=None):
+        (self.family, self.type, self.proto) = (family, type, proto)
+        self.sent = []
+        self.inbox = []
+        self.bound = ('10.0.0.200', 4556)
+        FakeSock.made.append(self)
+
+    def setsockopt(self, *args):
+        pass
+
+    def bind(self, addr):
+        if addr[0] not in ('0.0.0.0', '::'):
+            self.bound = (addr[0], addr[1] or 4556)
+
+    def connect(self, addr):
+        pass
+
+    def getsockname(self):
+        return self.bound
+
+    def sendmsg(self, buffers, ancdata=(), flags=0, address=None):
+        FakeSock.log.append((bytes(b''.join(buffers)), address))
+
+    def sendto(self, data, address):
+        FakeSock.log.append((bytes(data), address))
+
+    def recvmsg(self, bufsize, ancbufsize=0, flags=0):
+        return self.inbox.pop(0)
+
+    def close(self):
+        pass
+
+    def fileno(self):
+        return 1000 + FakeSock.made.index(self)
+
+
+FakeSock.log = []
+VBASE = dtmod.datetime(2026, 1, 1, tzinfo=dtmod.timezone.utc)
+
+
+class VDateTime(dtmod.datetime):
+    @classmethod
+    def now(cls, tz=None):
+        return VBASE + dtmod.timedelta(milliseconds=GLib.CTX.now_ms)
+
+
+def paced_payload(seed, length):
+    ''' a bundle of exactly ``length`` octets that is one CBOR array (so that the receiver can queue it
+    when it arrives unsegmented): [octet string] '''
+    for inner in range(max(0, length - 12), length):
+        data = cbor2.dumps([gen_data(seed, inner)])
+        if len(data) == length:
+            return data
+    return cbor2.dumps([gen_data(seed, max(0, length - 4))])
+
+
+def run_paced(scn):
+    ''' scn: dict(mtu, poll_ms|None, bundles=[[at_ms, seed, length]], script=[[at_ms, kind, arg]]).
+    Returns dict(emitted=[octets], signals, bundles={bid: data}, events=[queue events], done, now_ms). '''
+    saved = (socket.socket, time.monotonic_ns, uagent.datetime)
+    socket.socket = FakeSock
+    time.monotonic_ns = lambda: GLib.CTX.now_ms * 1000000
+    uagent.datetime = VDateTime
+    FakeSock.made = []
+    FakeSock.log = []
+    ctx = GLib.CTX
+    ctx.reset()
+    del dbus.service.EVENT_LOG[:]
+    try:
+        mtu = scn['mtu']
+        cfg = uconfig.Config(mtu_default=mtu, node_id='dtn://sender/')
+        if scn.get('poll_ms'):
+            cfg.polling.append(uconfig.PollConfig(address=PEER_ADDR[0], port=PEER_ADDR[1], interval_ms=scn['poll_ms']))
+        cfg._bus_conn = dbus.bus.BusConnection()
+        agent = uagent.Agent(cfg, bus_kwargs=dict(conn=cfg._bus_conn, object_path='/udpcl'))
+        events = []       # ('pri'|'paced', [expected datagram octets]) | ('tick', number of paced datagrams emitted)
+        track = True
+        orig_process = getattr(agent, '_process_tx_queue', None)
+        if orig_process is not None and hasattr(agent, '_tx_queue'):
+            def process_wrapper():
+                queue = agent._tx_queue
+                if queue:
+                    item = queue[0]
+                    pos = item.file.tell()
+                    item.file.seek(0)
+                    octets = item.file.read()
+                    item.file.seek(pos)
+                    if item.transfer_id is None:
+                        events.append(('pri', [octets]))
+                    else:
+                        (exp, term) = real_send(mtu, item.transfer_id, octets)
+                        events.append(('paced', exp if term else []))
+                return orig_process()
+            agent._process_tx_queue = process_wrapper
+        else:
+            track = False
+        todo = sorted([(at, 0, 'bundle', (seed, length)) for (at, seed, length) in scn['bundles']]
+                      + [(at, 1, kind, arg) for (at, kind, arg) in scn.get('script', [])])
+        bundles = {}
+        last_at = max([at for (at, _o, _k, _a) in todo] + [0])
+        cap = scn.get('cap_ms', 30000)
+        steps = 0
+        while steps < 400000:
+            steps += 1
+            idles = sorted([src for src in ctx.sources.values() if src.kind == 'idle'], key=lambda src: src.sid)
+            if idles:
+                ctx.run(idles[0])
+                continue
+            if todo and todo[0][0] <= ctx.now_ms:
+                (_at, _o, kind, arg) = todo.pop(0)
+                if kind == 'bundle':
+                    data = paced_payload(*arg)
+                    bid = agent.send_bundle_data(list(data), {'address': PEER_ADDR[0], 'port': PEER_ADDR[1]})
+                    bundles[str(bid)] = data
+                elif kind == 'pmtud':
+                    agent.pmtud_start(PEER_ADDR[0], PEER_ADDR[1], arg)
+                else:
+                    ios = sorted([src for src in ctx.sources.values() if src.kind == 'io'], key=lambda src: src.sid)
+                    if ios:
+                        if kind == 'listen':
+                            (octets, tos) = (cbor2.dumps({3: int(arg), 4: 'dtn://peer/'}), 0)
+                        elif kind == 'ecn':
+                            (octets, tos) = (b'\x00', int(arg))
+                        else:   # 'probe': confirm after arg ms
+                            (octets, tos) = (cbor2.dumps({6: [77, 1, int(arg)]}), 0)
+                        ios[0].sock.inbox.append((octets, [(socket.IPPROTO_IP, socket.IP_TOS, bytes([tos]))], 0, PEER_ADDR))
+                        ctx.run(ios[0])
+                continue
+            due = ctx.due_timeouts()
+            if due:
+                src = due[0]
+                before = len(FakeSock.log)
+                is_tick = src.name == 'tick'
+                ctx.run(src)
+                if is_tick and len(FakeSock.log) > before:
+                    events.append(('tick', [octets for (octets, _a) in FakeSock.log[before:]]))
+                continue
+            finished = set(str(evt['args'][0]) for evt in dbus.service.EVENT_LOG
+                           if evt['kind'] == 'signal' and evt['name'] == 'send_bundle_finished')
+            if not todo and finished >= set(bundles) and ctx.now_ms >= last_at + 60:
+                break
+            if ctx.now_ms >= cap:
+                break
+            ctx.advance(1)
+        signals = [(evt['name'], str(evt['args'][0]), [str(arg) for arg in evt['args'][1:]])
+                   for evt in dbus.service.EVENT_LOG
+                   if evt['kind'] == 'signal' and evt['name'] in ('send_bundle_started', 'send_bundle_finished')]
+        return dict(emitted=[octets for (octets, _a) in FakeSock.log], signals=signals, bundles=bundles,
+                    events=events if track else None, now_ms=ctx.now_ms, escaped=[repr(err) for err in ctx.escaped])
+    finally:
+        (socket.socket, time.monotonic_ns, uagent.datetime) = saved
+        GLib.CTX.reset()
+
+
+def is_non_transfer(dgram):
+    ''' extension map without a TRANSFER entry (optionally padded: PMTUD probes) '''
+    try:
+        (major, count, pos) = spec_head(dgram, 0)
+        if major != 5 or count < 1:
+            return False
+        (major, key, pos) = spec_head(dgram, pos)
+        return major == 0 and key in (3, 4, 5, 6, 7, 8)
+    except Bad:
+        return False
+
+
+def oracle_paced(scn, obs):
+    ''' (reason, class) or None.  Property text over what went out on the socket: for every bundle handed
+    to send_bundle_data the datagrams emitted for it are the bundle itself or segments that tile it, none
+    above the MTU; success is reported only when that is the case; a receiver fed every emitted datagram
+    once queues exactly the bundles, once each. '''
+    mtu = scn['mtu']
+    if obs['escaped']:
+        return ('exception escaped an event-loop callback of the sender: %s' % obs['escaped'][0][:120], 'exception')
+    per = dict((bid, []) for bid in obs['bundles'])
+    transfer_dgrams = []
+    for dgram in obs['emitted']:
+        owner = None
+        for (bid, data) in obs['bundles'].items():
+            if dgram == data:
+                owner = bid
+        if owner is None:
+            try:
+                (gxid, _total, _off, _frag) = spec_parse_segment(dgram)
+                owner = str(gxid) if str(gxid) in per else None
+                if owner is None:
+                    return ('segment of an unknown transfer %d emitted' % gxid, 'unknown-datagram')
+            except Bad:
+                if is_non_transfer(dgram):
+                    continue
+                return ('emitted datagram is neither a bundle, a segment nor a non-transfer message', 'unknown-datagram')
+        per[owner].append(dgram)
+        transfer_dgrams.append(dgram)
+    finished = dict((bid, args) for (name, bid, args) in obs['signals'] if name == 'send_bundle_finished')
+    for (bid, data) in sorted(obs['bundles'].items()):
+        if bid not in finished:
+            return ('bundle %s (%d octets) was never reported finished within %d ms' % (bid, len(data), obs['now_ms']), 'never-finished')
+        res = oracle_send(mtu, int(bid), data, per[bid], True)
+        if res is not None and finished[bid][-1] == 'success':
+            return ('bundle %s reported success but the %d datagram(s) emitted for it do not carry it: %s' % (
+                bid, len(per[bid]), res[0]), 'success-but-' + res[1])
+    rx = real_recv([(1, dgram) for dgram in transfer_dgrams])
+    if any(raised for (_n, raised) in rx['trace']):
+        return ('a receiver fed the emitted datagrams raises', 'receiver-raises')
+    got = sorted(data for (_b, data) in rx['queue'])
+    if got != sorted(obs['bundles'].values()):
+        return ('a receiver fed every emitted datagram once queues %d bundle(s) of lengths %s, expected exactly the %d sent' % (
+            len(got), [len(d) for d in got], len(obs['bundles'])), 'receiver-queue')
+    return None
+
+
+def pq_case(obs):
+    ''' The observed run as input of the queue model: events with datagrams numbered in enqueue order.
+    :return: (coq term, emitted ids) or None when the run could not be tracked '''
+    if obs['events'] is None:
+        return None
+    ids = collections.defaultdict(collections.deque)
+    paced_ids = set()
+    evs = []
+    nxt = 1
+    emitted = []
+    for (kind, arg) in obs['events']:
+        if kind in ('pri', 'paced'):
+            mine = []
+            for octets in arg:
+                ids[octets].append(nxt)
+                if kind == 'paced':
+                    paced_ids.add(nxt)
+                mine.append(nxt)
+                nxt += 1
+            evs.append((0 if kind == 'pri' else 1, mine))
+        else:
+            npaced = 0
+            for octets in arg:
+                num = ids[octets].popleft() if ids[octets] else 0
+                emitted.append(num)
+                if num in paced_ids:
+                    npaced += 1
+            evs.append((2, [npaced]))
+    term = coq_list(['(%s, %s)' % (coq_N(kind), coq_list([coq_N(num) for num in nums], 'N')) for (kind, nums) in evs], '(N * list N)')
+    return (term, emitted)
+
+
+def gen_paced_cases(chk, scale=1):
+    rng = chk.rng
+    quick = chk.quick() and scale == 1
+    cases = []
+    base = [(200, 985), (200, 150), (200, 199), (200, 200), (100, 450), (1400, 4000), (None, 700)]
+    # transfers only
+    for (mtu, length) in base:
+        cases.append(dict(mtu=mtu, poll_ms=None, bundles=[[0, rng.randrange(1, 2 ** 31), length]], script=[]))
+    # polling of the same peer at several periods relative to the 10 ms pacing tick
+    for period in ([25, 35, 70, 7, 10, 13] if quick else [25, 35, 70, 7, 10, 13, 3, 19, 50, 100, 210]):
+        for (mtu, length) in ([(200, 985), (200, 150), (100, 450)] if quick else base):
+            cases.append(dict(mtu=mtu, poll_ms=period, bundles=[[rng.randrange(0, 30), rng.randrange(1, 2 ** 31), length]], script=[]))
+    # each other kind of non-transfer message, at several offsets from the start of the transfer
+    for kind in ('listen', 'ecn', 'probe', 'pmtud'):
+        for offset in ([3, 12, 25, 41] if quick else [1, 3, 9, 10, 11, 12, 19, 25, 31, 41, 77]):
+            for (mtu, length) in [(200, 985), (200, 150)]:
+                arg = dict(listen=500, ecn=rng.choice([1, 2, 3]), probe=rng.choice([5, 20]), pmtud=rng.choice([2, 3]))[kind]
+                script = [[offset, kind, arg]]
+                if kind in ('listen', 'ecn') and rng.random() < 0.5:
+                    script.append([offset + rng.randrange(1, 40), kind, arg])
+                cases.append(dict(mtu=mtu, poll_ms=None, bundles=[[0, rng.randrange(1, 2 ** 31), length]], script=script))
+    # everything together, two bundles
+    for _ in range((6 if quick else 60) * scale):
+        mtu = rng.choice([100, 200, 300])
+        bundles = [[0, rng.randrange(1, 2 ** 31), rng.choice([mtu - 1, mtu, 3 * mtu, 5 * mtu - 7])],
+                   [rng.randrange(0, 120), rng.randrange(1, 2 ** 31), rng.choice([mtu // 2, 2 * mtu, 4 * mtu])]]
+        script = [[rng.randrange(1, 150), rng.choice(['listen', 'ecn', 'probe']), rng.choice([1, 3, 20])]
+                  for _ in range(rng.randrange(1, 5))]
+        cases.append(dict(mtu=mtu, poll_ms=rng.choice([None, 9, 25, 40]), bundles=bundles, script=sorted(script)))
+    return cases
+
+
+# ----------------------------------------------------------------------------------------------
 # oracles: the property text over the implementation's observable outputs
 
 def oracle_send(mtu, xid, data, dgrams, terminated):
@@ -404,6 +694,8 @@ def load_corpus():
             out.append(('send', tuple(case), os.path.basename(path)))
         for case in ent.get('xfers', []):
             out.append(('xfers', case, os.path.basename(path)))
+        for case in ent.get('paced', []):
+            out.append(('paced', case, os.path.basename(path)))
     return out
 
 
@@ -799,6 +1091,16 @@ class Runner(object):
                           dict(suite='history', mtu=mtu, start=start, steps=[list(st) for st in steps], failing_send=pos))
         return first
 
+    def check_paced(self, scn, obs):
+        res = oracle_paced(scn, obs)
+        if res is None:
+            return None
+        (why, klass) = res
+        self.fail('C13 / send-paced / %s' % klass,
+                  'mtu=%s poll=%s bundles=%s script=%s: %s' % (scn['mtu'], scn.get('poll_ms'), scn['bundles'], scn.get('script'), why),
+                  dict(suite='paced', scenario=scn))
+        return why
+
     def impl_xfers(self, xfers, arrival):
         lists = []
         for (mtu, xid, seed, length) in xfers:
@@ -939,6 +1241,37 @@ def run_all(chk):
                 kind, xfers, arrival, canon_prog(m_prog), canon_prog(obs['progress'])))
 
     run.phase('xfers:coq')
+    # ---- (d) the paced conversation queue: send_bundle_data with non-transfer messages in between ------
+    pq_terms = []
+    pq_want = []
+    for scn in [case for (kind, case, _n) in corpus if kind == 'paced'] + gen_paced_cases(chk):
+        obs = run_paced(scn)
+        run.check_paced(scn, obs)
+        kinds = sorted(set(kind for (_a, kind, _g) in scn.get('script', []))) + (['polling'] if scn.get('poll_ms') else [])
+        nontransfer = sum(1 for dgram in obs['emitted'] if is_non_transfer(dgram))
+        chk.case(('paced', json.dumps(scn, sort_keys=True)), nontrivial=nontransfer > 0 and len(obs['emitted']) > nontransfer,
+                 sample=samp(chk, 7, dict(suite='send-paced', scenario=scn, emitted_sizes=[len(d) for d in obs['emitted']][:14],
+                                          finished=[sig for sig in obs['signals'] if sig[0] == 'send_bundle_finished'])) if kinds and len(obs['emitted']) > 6 else None)
+        for kind in kinds or ['transfers only']:
+            chk.count('paced_non_transfer_kind', kind)
+        chk.count('paced_emitted', len(obs['emitted']) if len(obs['emitted']) < 4 else ('4-10' if len(obs['emitted']) <= 10 else '>10'))
+        pqc = pq_case(obs)
+        if pqc is not None:
+            pq_terms.append(pqc[0])
+            pq_want.append((scn, pqc[1], obs))
+    run.phase('paced:real(%d)' % len(pq_terms))
+    model = chk.coq_eval('pq', ['Model.Udpcl'], pq_terms, 'run_pq', chunk=max(20, -(-len(pq_terms) // 2)))
+    for ((scn, emitted, obs), mod) in zip(pq_want, model):
+        (m_emitted, m_pending) = (mod[0], mod[1])
+        if list(m_emitted) != list(emitted):
+            run.note_mismatch('paced', 'mtu=%s poll=%s bundles=%s script=%s: order of emission differs from the queue model: model %s real %s' % (
+                scn['mtu'], scn.get('poll_ms'), scn['bundles'], scn.get('script'), list(m_emitted)[:30], list(emitted)[:30]))
+        elif obs['now_ms'] < scn.get('cap_ms', 30000) and list(m_pending[1]):
+            # every bundle was reported finished: the paced lane must be empty (a polling message may still wait for the next tick)
+            run.note_mismatch('paced', 'mtu=%s bundles=%s: all bundles reported finished with transfer datagrams %s pending in the model' % (
+                scn['mtu'], scn['bundles'], list(m_pending[1])))
+    chk.obligation('correspondence:paced-queue', not run.mismatch.get('paced'), '; '.join(run.mismatch.get('paced', [])[:3]))
+    run.phase('paced:coq')
     # ---- (c) several messages / padding per datagram -------------------------------------------
     multi_cases = gen_multi_cases(chk)
     recv_cases = []
@@ -990,6 +1323,9 @@ def search_more(chk):
         (dgrams, term) = real_send(case[0], case[1], gen_data(case[2], case[3]))
         if run.check_send(case, dgrams, term):
             found = True
+    for scn in gen_paced_cases(chk, scale=10):
+        if run.check_paced(scn, run_paced(scn)):
+            found = True
     for (mtu, start, steps) in gen_histories(chk, scale=10):
         if run.check_history(mtu, start, steps, run_history(mtu, start, steps)):
             found = True
@@ -1033,6 +1369,12 @@ def replay(chk, path):
         print('replay recv transfers=%s arrival=%s -> finished counts %s, queue %s' % (
             xfers, arrival, [n for (n, _r) in obs['trace']], [len(d) for (_b, d) in obs['queue']]))
         why = run.check_xfers(xfers, arrival, lists, obs)
+    elif suite == 'paced':
+        scn = obj['scenario']
+        obs = run_paced(scn)
+        print('replay paced mtu=%s poll=%s bundles=%s script=%s -> emitted sizes %s, signals %s' % (
+            scn['mtu'], scn.get('poll_ms'), scn['bundles'], scn.get('script'), [len(d) for d in obs['emitted']], obs['signals']))
+        why = run.check_paced(scn, obs)
     elif suite == 'multi':
         parts = [bytes.fromhex(part) for part in obj['parts']]
         pad = bytes.fromhex(obj['pad'])
@@ -1086,7 +1428,12 @@ def main():
     chk.coverage['translator'] = dict(ok=tr_ok, error=tr_err)
     chk.coverage['phase_seconds'] = dict(coq_props=t_props, **(run.phases if run is not None else {}))
     chk.finish(
-        rule=('send-history: MANY sends through ONE agent object with ids from the agent\'s own counter (0..33 across 23/24; counter preset to 250, '
+        rule=('send-paced: send_bundle_data through the real _tx_queue and conversation queue (TxSendWait, token bucket on the 10 ms tick) '
+              'under the virtual GLib clock with recording stand-in sockets, segmented and unsegmented bundles, alone and with every kind of '
+              'non-transfer message the agent emits on that conversation in between (polling at periods 7..70 ms, the reply to an incoming '
+              'SENDER_LISTEN, ECN feedback for an incoming marked datagram, PMTUD probes, PMTUD confirm) at several offsets from the tick; '
+              'judged on what went out on the socket (tiling, MTU, success only if complete, a real receiver fed the emitted datagrams) and '
+              'compared with the two-lane queue model fed the observed token budgets; send-history: MANY sends through ONE agent object with ids from the agent\'s own counter (0..33 across 23/24; counter preset to 250, '
               '65530, 2^32-4 to cross 255/256, 65535/65536, 2^32), bundle lengths mixing the head-size classes and including the no-slack '
               'lengths, each send judged by the datagram-size/tiling oracle and compared with the stateless model under its real id; '
               'send: grid of MTU x bundle length x transfer id at every boundary of the fit test (mtu-2..mtu+1), of the segment size '
@@ -1117,6 +1464,9 @@ def main():
                      'translator translate/targets/udpclbudget.py is trusted; bounded by the octet-for-octet differential run of every translated definition through send_transfer',
                      'the receive function is driven directly (_recv_datagram with a stand-in socket object or None and a Conversation), sockets and DTLS are outside the model',
                      'item.total_length equals len(data) (what _add_tx_item sets)',
+                     'send-paced: socket.socket, time.monotonic_ns and the datetime class of udpcl.agent are replaced by recording / virtual-clock stand-ins; '
+                     'the token-bucket arithmetic is not modelled (each tick\'s budget is an observed input of the queue model, the oracle does not depend on it); '
+                     'enqueue events are observed by wrapping Agent._process_tx_queue (private; without it the suite is oracle-only)',
                      'send histories drive the real id counter through Agent._add_tx_item (where send_bundle_data ends) and take the item back from _tx_queue so no socket is opened; '
                      'the counter is preset near 255/256, 65535/65536 and 2^32 through the private attribute _tx_id (sending 65536 bundles first is not affordable)'])
 
